@@ -27,11 +27,19 @@ LEVEL_TEXT = ("Exhaustive small-scope enumeration through the real prepare_probl
 TECHNIQUE = "contracts on prepare_problem evaluated over an exhaustively enumerated small scope of label sets (real code, real pydantic models); no symbolic strings"
 LABELS = ["A", "B", "A/B", "B/A", "A/A", " A ", "A/ B", "O1", "A/O1", "Site", "Site/A", "A/B/A"]
 TREES = [None, "flat", "nested"]
+# zone names that end alike AS STRINGS but are different path components
+SIMILAR_LABELS = ["A", "XA", "P/A", "P/XA", " XA", "B"]
+# labels that address, or look like, generated unit-operation zones (raw labels with a leading blank sort before the others)
+GENERATED_LABELS = ["A", " A/O1", " A/O2", "A/O1", "A/O2", "B"]
 
 
 def _tree(kind):
     if kind is None:
         return None
+    if kind == "similar_names":
+        return ZoneTreeSchema(name="Site", type="Site", children=[
+            ZoneTreeSchema(name="P", type="Process Zone", children=[ZoneTreeSchema(name="A", type="Process Zone"), ZoneTreeSchema(name="XA", type="Process Zone")]),
+            ZoneTreeSchema(name="B", type="Process Zone")])
     if kind == "flat":
         return ZoneTreeSchema(name="Site", type="Site", children=[ZoneTreeSchema(name="A", type="Process Zone"), ZoneTreeSchema(name="B", type="Process Zone")])
     return ZoneTreeSchema(name="Site", type="Site", children=[
@@ -49,7 +57,34 @@ def _streams_of(z):
     return list(z.hot_streams._streams.values()) + list(z.cold_streams._streams.values())
 
 
-def _ob(n_streams):
+def _generated_zone_reused(labels, names):
+    """Mirror of the order in which the no-tree synthesis visits the streams (sorted by raw label, then name) and of the names it
+    generates for their unit-operation zones: True when a later label addresses, or passes through, a zone that was GENERATED for an
+    earlier stream (that zone then has a stream of its own and sub-zones: the recorded finding)."""
+    order = sorted(range(len(labels)), key=lambda i: (labels[i], names[i]))
+    children, generated, counters = {(): set()}, set(), {}
+    for i in order:
+        path = ()
+        for c in _norm(labels[i]):
+            if path + (c,) in generated:
+                return True
+            children.setdefault(path, set()).add(c)
+            path += (c,)
+            children.setdefault(path, set())
+        k = counters.get(path, 0) + 1
+        while f"O{k}" in children[path]:
+            k += 1
+        counters[path] = k
+        children[path].add(f"O{k}")
+        generated.add(path + (f"O{k}",))
+        children[path + (f"O{k}",)] = set()
+    return False
+
+
+def _ob(n_streams, LABELS=None, TREES=None):
+    LABELS = LABELS or globals()["LABELS"]
+    TREES = TREES or globals()["TREES"]
+
     def ob(h):
         tree_kind = h.choice("zone_tree", TREES)
         labels = [h.choice(f"label{i}", LABELS) for i in range(n_streams)]
@@ -77,8 +112,8 @@ def _ob(n_streams):
         h.exclude_known("KF-C10-suffix-labels", suffix_clash or tree_clash)
         # recorded finding: a stream attached to a zone that ALSO has sub-zones is discarded when that zone re-imports its sub-zones'
         # streams; without a user tree this happens when a label names a generated unit-operation zone ('A' and 'A/O1')
-        import re
-        h.exclude_known("KF-C10-user-tree-unresolved", tree_kind is None and any(re.fullmatch(r"O\d+", c) for n in norms for c in n))
+        names = ["s" if same_name else f"s{i}" for i in range(n_streams)]
+        h.exclude_known("KF-C10-user-tree-unresolved", tree_kind is None and _generated_zone_reused(labels, names))
         # recorded finding: with a user tree, a label that does not resolve to a LEAF of that tree (unknown zone, or a zone that
         # has sub-zones) loses its stream
         h.exclude_known("KF-C10-user-tree-unresolved", tree_kind is not None and not all(_resolves_to_leaf(_norm(l), tree_kind) for l in labels))
@@ -105,8 +140,9 @@ def _ob(n_streams):
     return ob
 
 
-LEAVES = {"flat": [("Site", "A"), ("Site", "B")], "nested": [("Site", "A", "B"), ("Site", "B")]}
-NODES = {"flat": [("Site",), ("Site", "A"), ("Site", "B")], "nested": [("Site",), ("Site", "A"), ("Site", "A", "B"), ("Site", "B")]}
+LEAVES = {"flat": [("Site", "A"), ("Site", "B")], "nested": [("Site", "A", "B"), ("Site", "B")], "similar_names": [("Site", "P", "A"), ("Site", "P", "XA"), ("Site", "B")]}
+NODES = {"flat": [("Site",), ("Site", "A"), ("Site", "B")], "nested": [("Site",), ("Site", "A"), ("Site", "A", "B"), ("Site", "B")],
+         "similar_names": [("Site",), ("Site", "P"), ("Site", "P", "A"), ("Site", "P", "XA"), ("Site", "B")]}
 
 
 def _resolves_to_leaf(comps, tree_kind):
@@ -143,6 +179,12 @@ def obligations():
     base = Obligation("C10.conserved.b", _ob(2), kind="smallscope", functions=fs, max_paths=400000, time_budget_s=600,
                       bound=f"every pair of streams over {len(LABELS)} labels x hot/cold x duplicate names x 3 zone-tree variants (exhaustive)", doc="CONSERVED, OWN-UTILS")
     obs += split(base, zone_tree=TREES)
+    obs.append(Obligation("C10.similar_names.b", _ob(2, SIMILAR_LABELS, ["similar_names"]), kind="smallscope", functions=fs, max_paths=400000, time_budget_s=600,
+                          bound=f"every pair of streams over {len(SIMILAR_LABELS)} labels against a user tree whose zone names end alike as strings (A / XA) (exhaustive)",
+                          doc="CONSERVED: labels are resolved by path COMPONENTS, not by string endings"))
+    obs.append(Obligation("C10.generated_names.b", _ob(3, GENERATED_LABELS, [None]), kind="smallscope", functions=fs, max_paths=400000, time_budget_s=600,
+                          bound=f"every triple of streams over {len(GENERATED_LABELS)} labels that address or resemble generated unit-operation zones, no tree (exhaustive)",
+                          doc="CONSERVED: generated unit-operation names never take over an existing zone"))
     base3 = Obligation("C10.conserved3.b", _ob(3), kind="smallscope", tier="thorough", functions=fs, max_paths=4000000, time_budget_s=7200,
                        bound=f"every triple of streams over {len(LABELS)} labels (exhaustive)")
     obs += split(base3, zone_tree=TREES, label0=LABELS)
